@@ -61,10 +61,21 @@ class MonEnv(Environment):
         return super().error(exc, msg, token)
 
 
-def run_mode(case: dict[str, Any], mode: str, data: dict[str, Any]):
+_LIVED_IN: dict[str, Any] = {}
+
+
+def lived_in_env(cfg: dict[str, Any]):
+    """One long-lived environment per configuration: the one an application would hold, with everything earlier cases left in it."""
+    key = repr(sorted(cfg.items(), key=repr))
+    if key not in _LIVED_IN:
+        _LIVED_IN[key] = drv.make_env(cfg, loader=DictLoader(dict(PARTIALS)), base=MonEnv)
+    return _LIVED_IN[key]
+
+
+def run_mode(case: dict[str, Any], mode: str, data: dict[str, Any], lived_in: bool = False):
     cfg = dict(case.get("env") or {})
     cfg["mode"] = mode
-    env = drv.make_env(cfg, loader=DictLoader(dict(PARTIALS)), base=MonEnv)
+    env = lived_in_env(cfg) if lived_in else drv.make_env(cfg, loader=DictLoader(dict(PARTIALS)), base=MonEnv)
     HOOK["n"] = 0
     with drv.Warnings() as w:
         o = drv.parse(env, case["source"])
@@ -142,6 +153,17 @@ def judge(ctx: core.Ctx, case: dict[str, Any]) -> None:
     _, o_w, st_w, w_w, h_w = run_mode(case, "warn", data)
     _, o_l, st_l, w_l, h_l = run_mode(case, "lax", data)
     ctx.count("warnings_recorded", w_w)
+    if not case.get("async"):
+        # the same three runs in environments that have already parsed and rendered every earlier case: a tolerant mode that suppresses an
+        # error must not leave anything behind that changes what a later template does (outcome and number of warnings stay what a fresh
+        # environment gives)
+        for name, fresh, fresh_w in (("strict", o_s, w_s), ("warn", o_w, w_w), ("lax", o_l, w_l)):
+            _, o_h, _, w_h, _ = run_mode(case, name, data, lived_in=True)
+            ctx.count("lived_in_environment_runs")
+            if o_h.key() != fresh.key() or w_h != fresh_w:
+                ctx.evaluations += 1
+                ctx.violation(f"lived-in-environment-differs:{name}", f"{name} mode, environment that served earlier templates: {o_h.brief()!r:.120} with {w_h} warnings; fresh environment: {fresh.brief()!r:.120} with {fresh_w} warnings; source {case['source']!r:.200}")
+                return
     if not o_s.ok and not o_s.is_liquid_error:
         ctx.count("non_liquid_error_forwarded_to_C02")
         return  # strict mode itself lets a non-Liquid exception out: C02's subject; nothing to compare
@@ -310,7 +332,10 @@ INHERIT = [
     "{% macro 'm' %}{% block a %}x{% endblock b %}{% endmacro %}{% call 'm' %}",
 ]
 
+DEEP = lambda n, inner="x": "{% if true %}" * n + inner + "{% endif %}" * n  # noqa: E731
 HAND = [
+    # nesting at and beyond the limit, then just below it again (what an over-nested template leaves behind must not count against the next)
+    DEEP(31), DEEP(30), DEEP(35), DEEP(30), DEEP(29), "{% liquid\n" + "if true\n" * 31 + "echo 'x'\n" + "endif\n" * 31 + "%}", DEEP(30), DEEP(28, "{% liquid\nif true\nif true\necho 'y'\nendif\nendif\n%}"),
     "{% if %}a{% endif %}b", "{% nosuch %}x", "{% else %}x", "{% break %}{% continue %}x", "{% for x in %}a{% endfor %}b", "{% if a %}x",
     "{% endif %}", "{{ a | nosuch }}", "{{ a b }}", "{% assign %}", "{% for i in (1..3) %}{% if i > %}x{% endif %}{{ i }}{% endfor %}",
     "{% case %}{% when 1 %}a{% endcase %}", "{% case x %}junk{% when %}a{% endcase %}", "{% unless a %}x{% elsif %}y{% endunless %}",
